@@ -39,6 +39,10 @@ impl Stack {
         self.entries.is_empty()
     }
 
+    pub(super) fn clear(&mut self) {
+        self.entries.clear();
+    }
+
     pub(super) fn push(&mut self, coinductive_goal: bool) -> StackDepth {
         let depth = StackDepth {
             depth: self.entries.len(),
